@@ -7,13 +7,15 @@ python3-vt - <<'PY'
 import sys
 sys.path.insert(0, "lib")
 import kanirun, specs, replay
-try:
-    replay.replay_bin()
-    print("replay binary built")
-except Exception as e:
-    print("replay build failed:", e)
+for fl in ("std", "rng"):
+    try:
+        replay.replay_bin(fl)
+        print("replay binary (%s) built" % fl)
+    except Exception as e:
+        print("replay build (%s) failed:" % fl, e)
 for name, h in (("core_units", "base64::proofs::l0_decoded_len"), ("json_units", "validators::has_expiry_exact"),
-                ("v4", "proofs::local_rng_fail_closed_"), ("v3", "proofs::local_rng_fail_closed_"), ("v2", "proofs::local_rng_fail_closed_")):
+                ("v4", "proofs::local_rng_fail_closed_"), ("v3", "proofs::local_rng_fail_closed_"), ("v2", "proofs::local_rng_fail_closed_"),
+                ("v3awslc", "proofs::local_rng_fail_closed_"), ("v4sodium", "proofs::local_nonce_is_draw_"), ("v1", "proofs::c13_id_transcript_lid")):
     g = specs.group(name)
     g.materialize()
     err = g.ensure_warm(h, ["-Z", "stubbing"] if g.stubbing else [])
